@@ -5,7 +5,7 @@ from hypothesis import strategies as st
 
 from trie.utils.db import ScratchDB
 
-from ..util import Abort, Info, cm_enter, cm_exit, expect, expect_eq, impl
+from ..util import Abort, Info, abort_exception, cm_enter, cm_exit, expect, expect_eq, impl
 
 ID = "C17"
 ATHERIS = True  # thorough tier: coverage-guided second engine over the same strategy/run_case
@@ -44,8 +44,9 @@ def strategy(tier):
             "base": st.lists(st.tuples(key, val), max_size=4, unique_by=lambda kv: kv[0]),
             "ops": st.lists(op, max_size=12),
             "do_deletes": st.booleans(),
-            "exc": st.integers(0, 2),
+            "exc": st.integers(0, 3),
             "in_handler": st.booleans(),
+            "wrapped_kind": st.sampled_from([0, 0, 1]),
         }
     )
 
@@ -163,7 +164,12 @@ def run_case(case):
     info.nontrivial = mixed and read_after_del
 
     exc_kind = case.get("exc", 0)
-    info.label(["exit-by-Exception", "exit-by-BaseException", "exit-by-KeyboardInterrupt"][exc_kind])
+    info.label(["exit-by-Exception", "exit-by-BaseException", "exit-by-KeyboardInterrupt", "exit-by-falsy-exception"][exc_kind % 4])
+    if case.get("wrapped_kind"):
+        # the wrapped db is a defaultdict: item access to an absent key would insert, so the
+        # reads of this case are done with `in` (which must never insert)
+        ops = [(("in" if kind == "get" else kind), k, v) for kind, k, v in ops]
+        info.label("wrapped-is-defaultdict")
     in_handler = bool(case.get("in_handler"))
     info.label("batch-inside-except-handler", in_handler)
     for exit_at in [None] + list(range(len(ops) + 1)):
@@ -172,9 +178,9 @@ def run_case(case):
             try:
                 raise LookupError("unrelated exception being handled by the caller")
             except LookupError:
-                _run_once(base, ops, dd, exit_at, exc_kind)
+                _run_once(base, ops, dd, exit_at, exc_kind, case.get("wrapped_kind", 0))
         else:
-            _run_once(base, ops, dd, exit_at, exc_kind)
+            _run_once(base, ops, dd, exit_at, exc_kind, case.get("wrapped_kind", 0))
         info.count("exits")
     return info
 
@@ -184,11 +190,15 @@ class _BaseAbort(BaseException):
 
 
 def _make_exc(kind):
-    return [Abort("injected"), _BaseAbort("injected"), KeyboardInterrupt("injected")][kind]
+    return abort_exception(kind)
 
 
-def _run_once(base, ops, dd, exit_at, exc_kind=0):
+def _run_once(base, ops, dd, exit_at, exc_kind=0, wrapped_kind=0):
     wrapped = dict(base)
+    if wrapped_kind:
+        import collections
+
+        wrapped = collections.defaultdict(lambda: b"inserted-by-default", base)
     s = impl("construct", ScratchDB, wrapped)
     cm = impl("batch-open", s.batch_commit, do_deletes=dd)
     cm_enter("batch-open", cm)
@@ -232,13 +242,13 @@ def _run_once(base, ops, dd, exit_at, exc_kind=0):
                     else:
                         expect("copy-in-batch", key not in got,
                                f"copy() invented key {key!r}: {got!r}")
-        expect_eq("wrapped-untouched-during-batch", wrapped, base,
+        expect_eq("wrapped-untouched-during-batch", dict(wrapped), base,
                   f"wrapped db after op {i} {kind}")
     if exit_at == len(ops):
         aborted = True
     if aborted:
         cm_exit("batch-exit", cm, _make_exc(exc_kind))
-        expect_eq("abort-leaves-wrapped-unchanged", wrapped, base,
+        expect_eq("abort-leaves-wrapped-unchanged", dict(wrapped), base,
                   f"wrapped db after exceptional exit before op {exit_at}")
         final = base
     else:
@@ -249,7 +259,7 @@ def _run_once(base, ops, dd, exit_at, exc_kind=0):
                 final[k] = act[1]
             elif dd:
                 final.pop(k, None)
-        expect_eq("commit-applies-buffer", wrapped, final,
+        expect_eq("commit-applies-buffer", dict(wrapped), final,
                   f"wrapped db after normal exit (do_deletes={dd})")
     # buffer empty afterwards: the scratch view is exactly the wrapped db again
     for key in UNIVERSE:
